@@ -309,13 +309,16 @@ def substitute(exprs, repl):  # noqa: C901
         if expr.id and expr.id in repl:
             expr = repl.pop(expr.id)
             didrepl = True
-        if expr in repl:
+        elif expr in repl:
             expr = repl[expr]
             didrepl = True
         if didrepl:
+            # The replacement is inserted as given: it is neither matched
+            # against the keys again nor traversed.
             changed = True
-            if expr is None:
-                continue
+            if expr is not None:
+                args[-1].append(expr)
+            continue
 
         if visited:
             children = args.pop()
